@@ -232,14 +232,20 @@ done:
   return 1;
 }
 
-/* t81 hex : decode with libjpeg-turbo, print what the independent decoder prints */
+/* t81 hex | t81c h1,h2,.. hex : decode with libjpeg-turbo, print what the independent decoder prints;
+   t81c additionally compares the per-component coefficient digests with the ones given */
 static int c03_t81(toks_t *t)
 {
-  size_t n; unsigned char *b = hex2bytes(t->tok[1], &n);
+  int withexp = !strcmp(t->tok[0], "t81c"); const char *expect = withexp ? t->tok[1] : NULL; char got[400] = ""; 
+  size_t n; unsigned char *b = hex2bytes(t->tok[withexp ? 2 : 1], &n);
   struct jpeg_decompress_struct d; my_err_t e; jvirt_barray_ptr *arr; int ci, k;
   d.err = my_err_init(&e);
   jpeg_create_decompress(&d);
-  if (setjmp(e.jb)) { printf("R err %d\n", e.code); jpeg_destroy_decompress(&d); free(b); return 1; }
+  if (setjmp(e.jb)) {
+    printf("R err %d\n", e.code);
+    if (withexp) printf("O fail t81c: libjpeg-turbo rejected a conforming stream (code %d)\n", e.code);
+    jpeg_destroy_decompress(&d); free(b); return 1;
+  }
   jpeg_mem_src(&d, b, n);
   jpeg_read_header(&d, TRUE);
   arr = jpeg_read_coefficients(&d);
@@ -257,8 +263,14 @@ static int c03_t81(toks_t *t)
       }
       if (cp->quant_table) for (k = 0; k < 64; k++) { unsigned v = cp->quant_table->quantval[k]; hq ^= v & 255; hq *= 1099511628211ULL; hq ^= v >> 8; hq *= 1099511628211ULL; }
       printf(" %d%d q%llu %ux%u %llu", cp->h_samp_factor, cp->v_samp_factor, hq, cp->width_in_blocks, cp->height_in_blocks, h);
+      snprintf(got + strlen(got), sizeof(got) - strlen(got), "%s%llu", ci ? "," : "", h);
     }
     printf(" w%d\n", e.nwarn);
+    if (withexp) {
+      if (strcmp(got, expect)) printf("O fail t81c: libjpeg-turbo decoded coefficient digests %s from a conforming stream whose writer put in %s\n", got, expect);
+      else if (e.nwarn) printf("O fail t81c: libjpeg-turbo warned %d times on a conforming stream\n", e.nwarn);
+      else printf("O ok\n");
+    }
   }
   jpeg_finish_decompress(&d);
   jpeg_destroy_decompress(&d);
@@ -270,5 +282,6 @@ static int dispatch_c03(toks_t *t)
 {
   if (!strcmp(t->tok[0], "ent") && t->n >= 12) return c03_ent(t);
   if (!strcmp(t->tok[0], "t81") && t->n >= 2) return c03_t81(t);
+  if (!strcmp(t->tok[0], "t81c") && t->n >= 3) return c03_t81(t);
   return 0;
 }
